@@ -1374,6 +1374,8 @@ def box_muller(
     Returns:
         (torch.Tensor, torch.Tensor)
     """
+    # epsilon must not underflow to zero in the dtype of the input (float16)
+    epsilon = max(epsilon, torch.finfo(input1.dtype).tiny)
     radius = (-2 * input1.clamp(min=epsilon).log()).sqrt()
     angle = 2 * kPI * input2
     output1 = radius * angle.cos()
